@@ -396,6 +396,11 @@ class LedgerBase:
                     for a in t.args:
                         if a.kind == 'move' and not a.place.proj:
                             fl = _kill(fl, a.place.local)
+                        if a.kind != 'const' and not a.place.proj:
+                            # a `&mut x` handed to the callee: whatever was known about x's variant is void afterwards
+                            da = an.single_def(a.place.local)
+                            if da and da[0] == 'stmt' and da[3].rv.kind in ('ref', 'rawptr') and da[3].rv.j.get('mut') and '*' not in da[3].rv.place.proj:
+                                fl = _kill(fl, da[3].rv.place.local)
                     if dest is not None:
                         fl = _kill(fl, dest)
                         meth = sorted(names)[0].split('::')[-1] if names else ''
@@ -674,9 +679,13 @@ class Ledger(LedgerBase):
             return self.ZERO, ''
         return None, ''
 
+    blind = None      # positive control: an event kind the model is made blind to (the books must then NOT balance)
+
     def call_event(self, b, an, bc, blk, t, ini, tr, dest):
         r = self.r
         names = t.callee_names()
+        if self.blind == 'forget' and 'tokio::sync::SemaphorePermit::forget' in names:
+            return None
         if 'tokio::sync::Semaphore::add_permits' in names:
             amt = an.resolve_operand(t.args[1]) if len(t.args) > 1 else '?'
             if bc.skip_e1:
@@ -749,6 +758,7 @@ class UnmanagedLedger(LedgerBase):
     """
     N = 4
     IGNORE_FLAGS = ('dead', 'closed', 'disarmed')
+    blind = None
 
     def __init__(self, prog, r):
         LedgerBase.__init__(self, prog)
@@ -877,6 +887,8 @@ class UnmanagedLedger(LedgerBase):
                     sign = 1 if op_ == 'fetch_add' else -1
                     return (tuple(sign * c for c in vec), '%s %s 1' % (fld, '+=' if sign > 0 else '-='))
         if bc.queue.get(blk.idx) == 'push':
+            if self.blind == 'push':
+                return None
             return ((-1, -1, 0, -1), 'object pushed')
         if bc.queue.get(blk.idx) in ('clear', 'truncate', 'drain', 'remove', 'swap_remove', 'retain'):
             if not (r.CLEAR is not None and b.path == r.CLEAR.path):
